@@ -145,6 +145,7 @@ ThSelfDelimiting   == Chosen => SelfDelimiting(T_, V_) /\ SelfDelimiting(S("m"),
 ThPrefixFree       == Chosen => PrefixFree(T_, V_) /\ PrefixFree(S("m"), <<T_, V_>>)
 ThReencodeIdentity == Chosen => ReencodeIdentity(T_, V_) /\ ReencodeIdentity(S("m"), <<T_, V_>>)
 ThSigRoundTrip     == SigRoundTrip(T_)
+ThScaleLaw         == Chosen => ScaleLaw(T_, V_)
 ThEncValue         == Chosen => EncValue(T_, V_) = Str(Sig(T_)) \o EncOrd(T_, V_)
 (* every hostile mutant: the reference decoder stays linear *)
 ThWorkBounded      == Chosen => /\ \A b \in Enc(T_, V_) : WorkBounded(T_, b)
